@@ -113,37 +113,47 @@ Definition crosses (sd : side) (agg : order) (s : book) : bool :=
   | Ask => o_price agg <=? best_price Bid (b_bid s)
   end.
 
-(** [match_bid] ([sd = Bid]) and [match_ask] ([sd = Ask]): the [while] loop is
-    recursion on [fuel]; exhausted fuel is [None] (shown never to happen when
-    [fuel] exceeds the length of the opposite queue). *)
+(** One iteration of the [while] loop of [match_bid] ([sd = Bid]) / [match_ask]
+    ([sd = Ask]): [IDone] when the guard is false or the opposite side is
+    empty ([break]), [ICont] with the updated book and aggressor otherwise. *)
+Inductive iter_res := IDone | ICont (s : book) (agg : order) | IPanic.
+
+Definition match_iter (sd : side) (s : book) (agg : order) : iter_res :=
+  if crosses sd agg s then
+    let ps := get_side s (opp sd) in
+    match sd_best_order_idx ps with
+    | None => IDone                                       (* [break] *)
+    | Some id =>
+        match nth_error (b_orders s) id with
+        | None => IPanic                                  (* [get_mut(id).unwrap()] *)
+        | Some pe =>
+            let '(agg', pass', tr, v) := match_orders (b_t s) agg (e_order pe) in
+            let orders' := set_nth (b_orders s) id (set_eorder pe pass') in
+            match (if status_eqb (o_status pass') SFilled
+                   then sd_remove ps (e_kp pe) (e_kt pe) v
+                   else sd_remove_vol ps (e_kp pe) v) with
+            | Panic => IPanic
+            | Ok ps' =>
+                ICont (set_side
+                         (set_trades (set_orders s orders') (b_trades s ++ [tr]) (b_tvol s + v))
+                         (opp sd) ps') agg'
+            end
+        end
+    end
+  else IDone.
+
+(** The loop is recursion on [fuel]; exhausted fuel is [None] (shown never to
+    happen when [fuel] exceeds the length of the opposite queue by two). *)
 Fixpoint match_loop (fuel : nat) (sd : side) (s : book) (agg : order)
   : option (res (book * order)) :=
   match fuel with
   | O => None
   | S fuel' =>
-      if crosses sd agg s then
-        let ps := get_side s (opp sd) in
-        match sd_best_order_idx ps with
-        | None => Some (Ok (s, agg))                       (* [break] *)
-        | Some id =>
-            match nth_error (b_orders s) id with
-            | None => Some Panic                           (* [get_mut(id).unwrap()] *)
-            | Some pe =>
-                let '(agg', pass', tr, v) := match_orders (b_t s) agg (e_order pe) in
-                let orders' := set_nth (b_orders s) id (set_eorder pe pass') in
-                match (if status_eqb (o_status pass') SFilled
-                       then sd_remove ps (e_kp pe) (e_kt pe) v
-                       else sd_remove_vol ps (e_kp pe) v) with
-                | Panic => Some Panic
-                | Ok ps' =>
-                    let s1 := set_side
-                                (set_trades (set_orders s orders') (b_trades s ++ [tr]) (b_tvol s + v))
-                                (opp sd) ps' in
-                    match_loop fuel' sd s1 agg'
-                end
-            end
-        end
-      else Some (Ok (s, agg))
+      match match_iter sd s agg with
+      | IDone => Some (Ok (s, agg))
+      | IPanic => Some Panic
+      | ICont s1 agg1 => match_loop fuel' sd s1 agg1
+      end
   end.
 
 Definition match_fuel (s : book) (sd : side) : nat :=
@@ -319,3 +329,10 @@ Definition step_raw (s : book) (o : op) : res (book * out) :=
 Definition step (s : book) (o : op) : res (book * out) :=
   do (s1, x) <- step_raw s o;
   if bounded s1 then Ok (s1, x) else Panic.
+
+(** Every reachable state: [step] folded over any operation list. *)
+Fixpoint run (s : book) (ops : list op) : res book :=
+  match ops with
+  | [] => Ok s
+  | o :: r => match step s o with Ok (s', _) => run s' r | Panic => Panic end
+  end.
